@@ -7,30 +7,42 @@
 (* oracle-free projector), the decoder's verdict, the size the decoded value *)
 (* reports and its re-encoding.                                              *)
 EXTENDS OFWire
-CONSTANT TraceFile
+CONSTANTS TraceFile, Safe
 Trace == ndJsonDeserialize(TraceFile)
 VARIABLES l, done
 vars == <<l, done>>
 Res(e) == IF Has(e.obs, "results") THEN e.obs.results ELSE <<>>
 SpecKinds == MsgKinds \cup ActionKinds \cup InstrKinds \cup PktKinds \cup {"Match", "MatchField", "Bucket"}
 HasTree(e, r) == Has(e, "trees") /\ r.obj \in DOMAIN e.trees
-Checks(e) ==
+\* The predicates are evaluated in this order and only until the first one fails (a later predicate reads the decoded projection field
+\* by field and presupposes what the earlier ones established: that there is one, of the right kind and shape).
+NChecks == 9
+CheckName(k) ==
+  CASE k = 0 -> "the API calls completed without panicking"
+    [] k = 1 -> "no panic while encoding, decoding or re-encoding"
+    [] k = 2 -> "encoding = the specified layout with the supplied values (every bit-field in its lane)"
+    [] k = 3 -> "the decoder accepts the library's own encoding"
+    [] k = 4 -> "decoding yields a value of the same kind"
+    [] k = 5 -> "decoded value has the same observable field values"
+    [] k = 6 -> "re-encoding the decoded value reproduces the original bytes"
+    [] k = 7 -> "the decoded value, read field by field by the specification's encoder, gives the original bytes"
+    [] k = 8 -> "the payload decoder is chosen by ethertype / protocol / next-header chain"
+    [] k = 9 -> "the decoded value accounts for exactly its own bytes (siblings follow)"
+Holds(e, k) ==
   LET rs == Res(e) IN
-  IF Len(rs) # Len(e.rt) THEN << <<"the API calls completed without panicking", FALSE>> >>
-  ELSE
-  << <<"no panic while encoding, decoding or re-encoding", \A i \in DOMAIN rs : ~Has(rs[i], "panic")>>,
-     <<"encoding = the specified layout with the supplied values (every bit-field in its lane)",
-        \A i \in DOMAIN rs : (Has(rs[i], "bytes") /\ HasTree(e, rs[i])) => rs[i].bytes = Enc(e.trees[rs[i].obj])>>,
-     <<"the decoder accepts the library's own encoding", \A i \in DOMAIN rs : Has(rs[i], "err") => (~rs[i].err /\ ~Has(rs[i], "nil"))>>,
-     <<"decoding yields a value of the same kind", \A i \in DOMAIN rs : Has(rs[i], "dectype") => rs[i].dectype = rs[i].origtype>>,
-     <<"decoded value has the same observable field values", \A i \in DOMAIN rs : Has(rs[i], "dec") => rs[i].dec = rs[i].orig>>,
-     <<"re-encoding the decoded value reproduces the original bytes", \A i \in DOMAIN rs : Has(rs[i], "reenc") => rs[i].reenc = rs[i].bytes>>,
-     <<"the decoded value, read field by field by the specification's encoder, gives the original bytes",
-        Has(e, "nospec") \/ \A i \in DOMAIN rs : (Has(rs[i], "dec") /\ Has(rs[i].dec, "T") /\ rs[i].dec.T \in SpecKinds) => Enc(rs[i].dec) = rs[i].bytes>>,
-     <<"the payload decoder is chosen by ethertype / protocol / next-header chain",
-        \A i \in DOMAIN rs : (Has(rs[i], "dec") /\ Has(rs[i].dec, "T") /\ rs[i].dec.T \in {"Ethernet", "IPv4", "IPv6"}) => rs[i].dec.Data.T = Demux(rs[i].dec)>>,
-     <<"the decoded value accounts for exactly its own bytes (siblings follow)", \A i \in DOMAIN rs : Has(rs[i], "declen") => rs[i].declen = Len(rs[i].bytes)>> >>
-Failed(e) == LET cs == Checks(e) IN {i \in DOMAIN cs : ~cs[i][2]}
+  CASE k = 1 -> \A i \in DOMAIN rs : ~Has(rs[i], "panic")
+    [] k = 2 -> \A i \in DOMAIN rs : (Has(rs[i], "bytes") /\ HasTree(e, rs[i])) => rs[i].bytes = Enc(e.trees[rs[i].obj])
+    [] k = 3 -> \A i \in DOMAIN rs : Has(rs[i], "err") => (~rs[i].err /\ ~Has(rs[i], "nil"))
+    [] k = 4 -> \A i \in DOMAIN rs : Has(rs[i], "dectype") => rs[i].dectype = rs[i].origtype
+    [] k = 5 -> \A i \in DOMAIN rs : Has(rs[i], "dec") => rs[i].dec = rs[i].orig
+    [] k = 6 -> \A i \in DOMAIN rs : Has(rs[i], "reenc") => rs[i].reenc = rs[i].bytes
+    [] k = 7 -> Safe \/ Has(e, "nospec") \/ \A i \in DOMAIN rs : (Has(rs[i], "dec") /\ Has(rs[i].dec, "T") /\ rs[i].dec.T \in SpecKinds) => Enc(rs[i].dec) = rs[i].bytes
+    [] k = 8 -> Safe \/ \A i \in DOMAIN rs : (Has(rs[i], "dec") /\ Has(rs[i].dec, "T") /\ rs[i].dec.T \in {"Ethernet", "IPv4", "IPv6"}) => rs[i].dec.Data.T = Demux(rs[i].dec)
+    [] k = 9 -> \A i \in DOMAIN rs : Has(rs[i], "declen") => rs[i].declen = Len(rs[i].bytes)
+RECURSIVE FirstFailFrom(_, _)
+FirstFailFrom(e, k) == IF k > NChecks THEN -1 ELSE IF ~Holds(e, k) THEN k ELSE FirstFailFrom(e, k + 1)
+\* -1: every predicate holds; 0: the scenario did not run to the end
+FirstFail(e) == IF Len(Res(e)) # Len(e.rt) THEN 0 ELSE FirstFailFrom(e, 1)
 FirstBad(e, k) == LET rs == Res(e)
                       S == {i \in DOMAIN rs : CASE k = 1 -> Has(rs[i], "panic")
                                                  [] k = 2 -> Has(rs[i], "bytes") /\ HasTree(e, rs[i]) /\ rs[i].bytes # Enc(e.trees[rs[i].obj])
@@ -51,10 +63,9 @@ FirstBad(e, k) == LET rs == Res(e)
                         where |-> (IF Has(rs[i], "where") THEN rs[i].where ELSE "")]
 Init == l \in 1..Len(Trace) /\ done = FALSE
 Judge == /\ ~done /\ done' = TRUE /\ UNCHANGED l
-         /\ LET e == Trace[l]  bad == Failed(e) IN
-              IF bad = {} THEN TRUE
-              ELSE LET i == CHOOSE j \in bad : \A k \in bad : j <= k IN
-                   PrintT(ToJson([reject |-> l, id |-> e.id, fam |-> e.fam, pred |-> Checks(e)[i][1], detail |-> FirstBad(e, i)]))
+         /\ LET e == Trace[l]  k == FirstFail(e) IN
+              IF k = -1 THEN TRUE
+              ELSE PrintT(ToJson([reject |-> l, id |-> e.id, fam |-> e.fam, pred |-> CheckName(k), detail |-> FirstBad(e, k)]))
 Next == Judge
 Spec == Init /\ [][Next]_vars
 =============================================================================
